@@ -97,7 +97,13 @@ def main_benign():
         print('%-8s %s  %s' % (bid, 'SILENT' if r.get('silent') else 'ALARM', json.dumps({k: v['lines'] for k, v in r['checks'].items() if v['lines']})[:600]))
         sys.stdout.flush()
         out.append(r)
-    json.dump(out, open(os.path.join(root, 'RESULTS.json'), 'w'), indent=1)
+    path = os.path.join(root, 'RESULTS.json')
+    prev = {}
+    if os.path.exists(path):
+        prev = {r['id']: r for r in json.load(open(path))}
+    for r in out:
+        prev[r['id']] = r
+    json.dump([prev[k] for k in sorted(prev, key=lambda x: int(x[1:]) if x[1:].isdigit() else 0)], open(path, 'w'), indent=1)
     return 0
 
 
